@@ -30,6 +30,8 @@ WLaws == cs.kind = "w" =>
   /\ (~cs.ex => NonNegative(w))
   /\ LinearExact(cs.xs, cs.nxs, w, 3, 2, cs.ex) /\ LinearExact(cs.xs, cs.nxs, w, -1, 0, cs.ex)
   /\ (cs.nxs = cs.xs => Identity(w))
+  \* ... and only ratios: the same grids in half units have the same weights
+  /\ Weights([i \in 1..Len(cs.xs) |-> 2 * cs.xs[i]], [j \in 1..Len(cs.nxs) |-> 2 * cs.nxs[j]], cs.ex) = w
   \* only differences matter: the same grids far from the origin have the same weights
   /\ Weights([i \in 1..Len(cs.xs) |-> cs.xs[i] + 2450000], [j \in 1..Len(cs.nxs) |-> cs.nxs[j] + 2450000], cs.ex) = w
 CLaws == cs.kind = "c" =>
